@@ -47,6 +47,11 @@ def witnesses(ctx, nquick, nthorough):
 
 def zoo_run(ctx, chosen, configs):
     """configs: list of (env, tag). Builds the generated zoo and judges every record with Trace_Dispatch."""
+    # plus leaves whose body is shorter than the entry jump (constant returners, trivial getters)
+    chosen = list(chosen) + [{"params": [], "variadic": False, "results": ["int"], "tiny": True},
+                             {"params": ["int"], "variadic": False, "results": ["int"], "tiny": True},
+                             {"params": ["ptr"], "variadic": False, "results": ["bool"], "tiny": True},
+                             {"params": [], "variadic": False, "results": ["string"], "tiny": True}]
     files = zoogen.generate(chosen)
     ov = ctx.extra_overlay(ctx.overlay(["zoo"]), files)
     binary = ctx.build_test("zzverif/zoodrv", ["zoo"], name="zoodrv", overlay=ov)
